@@ -405,6 +405,10 @@ def is_ts(t, owner=None):
     return t is not None and t[0] == 'field' and t[2].endswith('::timestamp_') and (owner is None or t[1] == owner)
 
 
+def is_ts_cmp(a):
+    return a[0] == 'bin' and a[1] in ('<', '<=', '>', '>=') and 'timestamp_' in repr(a)
+
+
 def ordering(ctx, P, A):
     ctx.rule('R3', 'the buffer is sorted by a stable insertion and dumped in order; unbuffered lines flush what must precede them; events are dated with the current clock', 10)
     ins = P.fn(NS + 'PajeEvent::insert_into_buffer')
@@ -482,6 +486,29 @@ def ordering(ctx, P, A):
                    (x.kind == 'assign' and x.rhs == ('global', NS + 'buffer'))]
             okp = okp and bool(fwd) and not any(x.kind == 'call' and x.q.endswith('::rbegin') for x in all_events(A, f))
         ctx.check(okp, 'R3', '%s prints the buffered events in buffer order (forward from begin)' % q.replace(NS, ''), where(f), '%d print site(s)' % len(prints), key='R3|%s|in order' % q.replace(NS, ''))
+    # what is printed is exactly what leaves the buffer: a partial dump advances its cursor once per printed event and erases [begin, cursor); a full dump clears
+    for q in (NS + 'dump_buffer', NS + 'dump_buffer_before'):
+        f = P.fn(q)
+        vv = A.view(f)
+        shapes = set()
+        for p in vv.paths(max_visits=2):
+            if p.exit in ('noreturn', 'cut', 'throw'):
+                continue
+            evs = vv.path_events(p)
+            np_ = len([e for e in evs if e.kind == 'call' and e.q.endswith('::print')])
+            if np_ == 0:
+                continue
+            curs = [e.lhs for e in evs if e.kind == 'assign' and e.lhs[0] == 'var' and e.rhs[0] == 'call' and e.rhs[1].endswith('::begin') and 'buffer' in repr(e.rhs) and not e.lhs[2].startswith('__')]
+            cur = curs[0] if curs else None
+            ninc = len([e for e in evs if cur is not None and ((e.kind == 'incdec' and e.lhs == cur) or (e.kind == 'call' and e.q.endswith('::operator++') and e.obj == cur))])
+            er = [e for e in evs if e.kind == 'call' and e.q.endswith('::erase') and 'buffer' in repr(e.obj)]
+            cl = [e for e in evs if e.kind == 'call' and e.q.endswith('::clear') and 'buffer' in repr(e.obj)]
+            full = any(e.kind == 'branch' and 'force' in repr(e.atom) for e in evs) and cl and not er and not any(e.kind == 'branch' and is_ts_cmp(e.atom) for e in evs)
+            partial = len(er) == 1 and not cl and cur is not None and ninc == np_ and len(er[0].args) == 2 and er[0].args[1] == cur and er[0].args[0][0] == 'call' and er[0].args[0][1].endswith('::begin')
+            shapes.add('full' if full else 'partial' if partial else 'bad: %d printed, cursor advanced %d time(s), erase x%d, clear x%d' % (np_, ninc, len(er), len(cl)))
+        bad = sorted(x for x in shapes if x.startswith('bad'))
+        ctx.check(bool(shapes) and not bad, 'R3', '%s: the events printed are exactly the events removed from the buffer' % q.replace(NS, ''), where(f),
+                  bad[0] + ': events are printed twice, or dropped without being printed' if bad else 'path shapes %s' % sorted(shapes), key='R3|%s|printed = removed' % q.replace(NS, ''))
     dbb = P.fn(NS + 'dump_buffer_before')
     vv = A.view(dbb)
     lim = lib.parm_i(dbb, 0)
